@@ -78,8 +78,11 @@ class StarFinderBase(metaclass=abc.ABCMeta):
             else:
                 footprint = kernel.mask.astype(bool)
         else:
-            # define a local circular footprint for the peak finder
-            idx = np.arange(-min_separation, min_separation + 1)
+            # define a local circular footprint for the peak finder;
+            # the footprint must be centered on a pixel (odd size) also
+            # for a non-integer min_separation
+            size = int(min_separation)
+            idx = np.arange(-size, size + 1)
             xx, yy = np.meshgrid(idx, idx)
             footprint = np.array((xx**2 + yy**2) <= min_separation**2,
                                  dtype=int)
